@@ -27,7 +27,7 @@ let err_str (e : sberr) : string =
   let a = ascii_of_str in
   match e with
   | SbeExecutableDefinition -> "ExecutableDefinition()"
-  | SbeSchemaDefinitionCollision -> "SchemaDefinitionCollision()"
+  | SbeSchemaDefinitionCollision -> "SchemaDefinitionCollision(schema)"
   | SbeDirectiveDefinitionCollision n -> "DirectiveDefinitionCollision(@" ^ a n ^ ")"
   | SbeTypeDefinitionCollision n -> "TypeDefinitionCollision(" ^ a n ^ ")"
   | SbeBuiltInScalarTypeRedefinition -> "BuiltInScalarTypeRedefinition()"
